@@ -503,13 +503,8 @@ fn defect_shapes(h: &Hdr, r: &Rec) -> Vec<&'static str> {
             }
         }
     }
-    // a string-array value containing `%XX`: `bcf::Record` hands the raw string to the VCF text
-    // `Values` impl, which percent-decodes it (record/info/field/value.rs read_string_array_value,
-    // record/samples/series.rs get_string_array_value); the eager reader does not
-    let pct = |v: &Val| matches!(v, Val::Strs(xs) if xs.iter().flatten().any(|s| s.contains(&b'%')));
-    if r.info.iter().any(|(_, v)| pct(v)) || r.rows.iter().flatten().any(pct) {
-        out.push("lazy-string-array-percent-decoded");
-    }
+    // (a string-array value containing `%XX` used to be tagged here: F31, the lazy accessors
+    // percent-decoded it; repaired in 4fedf9b, such values are ordinary now)
     out
 }
 
@@ -1294,7 +1289,7 @@ pub fn run(ctx: &mut Ctx) {
                 }
             }
             Some("dec") => dec_corpus(ctx),
-            _ => {}
+            _ => { super::c10_record::replay(ctx, &case); }
         }
         return;
     }
@@ -1310,6 +1305,7 @@ pub fn run(ctx: &mut Ctx) {
         histogram(ctx, &h, &r);
         run_case(ctx, &h, &r, &format!("case {sub}"), true);
     }
+    super::c10_record::run(ctx);
     let (h, r) = case_of(ctx.seed.wrapping_mul(10_000_019));
     ctx.sample(|| format!("c10 rec {} {}", fmt_hdr_words(&h), fmt_rec(&r)));
 }
